@@ -169,16 +169,35 @@ static bool compare_all(const pk_t *P, const void *st, const uint32_t *m, uint32
 static void history_case(const pk_t *P, size_t pi, rng_t *r, bool sorted) {
     (void)pi;
     uint32_t cap = 8 + (uint32_t)rng_below(r, 200);
+    uint32_t start = 0;
+    if (P->maxel && rng_chance(r, 2, 3)) {
+        /* a narrow length type filled beyond half of its range, up to its documented maximum */
+        cap = (uint32_t)P->maxel;
+        start = cap - 1 - (uint32_t)rng_below(r, cap / 3 + 1);
+    } else if (!P->maxel && rng_chance(r, 1, 60)) {
+        /* default (32-bit) length type with more than 65536 elements */
+        cap = 65536 + (uint32_t)rng_below(r, 6000);
+        start = cap - 1 - (uint32_t)rng_below(r, 300);
+    }
+    if (cap > 208 && P->maxel == 0 && (size_t)cap * (size_t)P->bits / 8 > (1u << 20)) { cap = 208; start = 0; }
     size_t nb = storage_bytes(P, cap);
     gbuf_t gb;
     gbuf_alloc(&gb, nb, 64, (uint8_t)(cap + 9));
     rng_fill(r, gb.p, nb);
     uint32_t *m = malloc((cap + 1) * 4);
     uint32_t len = 0;
+    if (start) { /* prefilled through Set (C09's isolation sub-test covers Set itself) */
+        for (uint32_t i = 0; i < start; i++) m[i] = gen_pvalue(r, P);
+        if (sorted) qsort(m, start, 4, cmp_u32);
+        for (uint32_t i = 0; i < start; i++) P->set(gb.p, i, m[i]);
+        len = start;
+        STAT_INC(P->maxel ? "c09_histories_near_the_maximum_of_a_narrow_length_type" : "c09_histories_over_65536_elements");
+    }
     uint32_t pool[12];
     uint32_t np = 1 + (uint32_t)rng_below(r, 12);
     for (uint32_t i = 0; i < np; i++) pool[i] = gen_pvalue(r, P);
     int nops = 50 + (int)rng_below(r, 251);
+    if (start > 5000) nops = 20 + (int)rng_below(r, 60); /* every step re-reads the whole array */
     bool ok = true;
     for (int t = 0; t < nops && ok; t++) {
         uint32_t v = rng_chance(r, 2, 3) ? pool[rng_below(r, np)] : gen_pvalue(r, P);
@@ -342,9 +361,11 @@ static void packed_case(uint64_t idx, rng_t *r) {
     const pk_t *P = &PK[pi];
     g_inst_cases[pi]++;
     int sub = (int)((g / NPK) % 4);
+    alarm(30); /* a search or shift loop that never returns is a violation (reported as a hang, re-run once by the orchestrator) */
     if (sub < 2) isolation_case(P, pi, r);
     else history_case(P, pi, r, sub == 2);
     if ((g / NPK) % 8 == 5) huge_index_case(P, r);
+    alarm(0);
     STAT_INC("distinct_nontrivial");
     if (want_sample()) sample("{\"instantiation\":\"%s\",\"bits\":%d,\"slot_bits\":%d,\"compact\":%d,\"subtest\":%d}", P->name, P->bits, P->slotbits, P->compact, sub);
 }
